@@ -2410,8 +2410,18 @@ func closureArgs(ci ssa.CallInstruction) []*ssa.MakeClosure {
 // called the component, not to the component. Rules that group or pair effects "of the
 // same function" use the host frame; facts are still taken at the event itself.
 func hostFrame(fr *Frame) *Frame {
-	for fr != nil && fr.Parent != nil && fr.Call != nil && theCtx != nil && theCtx.transparentHelper(fr.Fn) {
-		fr = fr.Parent
+	for fr != nil {
+		switch {
+		case fr.Parent != nil && fr.Call != nil && theCtx != nil && theCtx.transparentHelper(fr.Fn):
+			fr = fr.Parent
+			continue
+		case fr.Call == nil && fr.Via != nil && firstErrorStep(fr) != nil:
+			// a step of a first-error list (firstErr(func() error { return send(a) }, …)): the
+			// steps are the statements of the function that lists them
+			fr = fr.Via
+			continue
+		}
+		break
 	}
 	return fr
 }
